@@ -175,6 +175,11 @@ type Machine struct {
 	digitCache []digitEntry
 	digitSeq   int
 	memo       map[string]bool
+	tlocks     map[*Val]*lockState
+	cur        *thread
+	events     chan threadEvent
+	aborting   bool
+	sched      []int
 }
 
 type obsRec struct {
